@@ -231,8 +231,9 @@ __archive_write_filter(struct archive_write_filter *f,
     const void *buff, size_t length)
 {
 	int r;
-	/* Never write to non-open filters */
-	if (f->state != ARCHIVE_WRITE_FILTER_STATE_OPEN)
+	/* Never write to non-open filters; an archive that was never
+	 * opened (closed after archive_write_fail) has none at all. */
+	if (f == NULL || f->state != ARCHIVE_WRITE_FILTER_STATE_OPEN)
 		return(ARCHIVE_FATAL);
 	if (length == 0)
 		return(ARCHIVE_OK);
